@@ -251,6 +251,10 @@ def _dec_const(c, S):
             c["trait"] = S[c["trait"]]
     else:
         c["ty"] = S[c["ty"]]
+        if "static" in c:
+            c["static"] = S[c["static"]]
+        if "item" in c:
+            c["item"] = S[c["item"]]
 
 
 def _dec_op(o, S):
@@ -309,7 +313,7 @@ def _dec_fn(j, S, crate):
     f.trait_of = j["trait_of"]
     f.argc = j["argc"]
     f.locals = [[S[l[0]], l[1], l[2], l[3]] for l in j["locals"]]
-    f.captures = [[c[0], S[c[1]], c[2]] for c in j["captures"]]
+    f.captures = [[c[0], S[c[1]], c[2], (c[3] if len(c) > 3 else None)] for c in j["captures"]]
     f.upvar_names = j["upvar_names"]
     for u in f.upvar_names:
         _dec_place(u[1], S)
@@ -350,6 +354,9 @@ def load_crate(path):
     S = d["strs"]
     c = Crate(d["crate"])
     c.file = path
+    c.implied = d.get("implied_features", {})
+    c.baseline = d.get("baseline_features", [])
+    c.arch = d.get("arch")
     for j in d["fns"]:
         f = _dec_fn(j, S, c.name)
         c.fn_list.append(f)
